@@ -134,6 +134,14 @@ def c02(E, blt, opts, r):
             # (whole-run theorem C02_meek_iterations_conserve_whole_run); meek-prf logs no 'iterate' action
             if a['tag'] == 'iterate' and fv(E, tot) < n:
                 out.append(V_('c02-lost', "votes+residual = %s falls short of %d ballots at %r" % (tot, n, a['msg']), **sig))
+            # meek-prf logs no 'iterate'; its begin/elect/tie/defeat steps balance exactly (C08's whole-run theorem).  The other
+            # steps ('round', the closing 'remaining' steps) are recorded too: K18 when the shortfall is the tally of a candidate
+            # excluded earlier whose votes were zeroed before the next distribution
+            if rule == 'meek-prf' and fv(E, tot) < n:
+                claimed_step = a['tag'] in ('begin', 'elect', 'tie', 'defeat') and not a['msg'].startswith(('Defeat remaining', 'Elect remaining'))
+                earlier = [b for b in snaps(E)][:i]
+                out.append(V_('c02-lost-prf', "meek-prf: votes+residual = %s falls short of %d ballots at %r" % (tot, n, a['msg']),
+                              **dict(sig, unclaimed_step=not claimed_step, after_exclusion=any(b['tag'] == 'defeat' for b in earlier))))
         elif rule == 'qpq' and snapsB is not None:
             nel = len([1 for c in a['cstate'].values() if c['state'] == 'elected'])
             ws = snapsB[i]
